@@ -34,6 +34,11 @@ func (st *stack) mkSubject(r *rand.Rand, tag string) *subject {
 	sb := &subject{tag: tag, at: "at-" + tag, email: "p-" + tag + "@corp.test", ga: "ga-" + tag, gb: "gb-" + tag,
 		hid: "hidden-" + tag, rt: "rt-" + tag, nat: "nat-" + tag, irtNat: "nat2-" + tag}
 	sb.sess = mkSession(tag, time.Duration(300+r.Intn(7000))*time.Second, time.Duration(8000+r.Intn(70000))*time.Second)
+	if r.Intn(3) == 0 { // a sparse session: its redeem must not inherit anything from an earlier one
+		sb.sess.RefreshToken, sb.sess.User = "", ""
+	} else {
+		sb.sess.User, sb.sess.AuthorizedUpstream = "u-"+tag, "app.sso.test"
+	}
 	sb.code = as.SealCode(sb.sess)
 	set := func(ep, key string, a sut.Answer) {
 		as.IdP.Set(ep, key, a)
